@@ -17,7 +17,7 @@ from __future__ import annotations
 import ast
 
 from ..core import AnalysisError, assignments, call_name, contains_yield, names_in, provenance, short, walk_no_nested
-from ..util import calls_named, has_call, kwarg, norm
+from ..util import calls_named, has_call, kwarg, norm, stored_paths
 from .common_fwd import forwarding
 
 GEO = "molli.chem.geometry"
@@ -520,6 +520,36 @@ def r3_frames(chk):
               and not any(k.arg == "write_header" for k in loops[0].body[0].value.keywords))
         chk.decide(ok, "C08.R3" if m == "dump_xyz" else "C08.R3", f"{f.key}:every-conformer-in-order", f.where(),
                    f"for conf in self: conf.{m}(stream)", f"ConformerEnsemble.{m} does not write every conformer, in order, each with its header, to the given stream")
+    # every frame is built from its own block: the per-block generators carry no local from one block into the next
+    for spec in (f"{GEO}:CartesianGeometry.yield_from_xyz", "molli.chem.structure:Structure.yield_from_mol2"):
+        fy = prog.func(spec)
+        chk.analysed(fy)
+        bl = [l for l in walk_no_nested(fy.node) if isinstance(l, ast.For) and has_call(l.iter, {"read_xyz", "read_mol2"})]
+        chk.require(len(bl) == 1, f"{fy.key}: loop over the parsed blocks not found")
+        L = bl[0]
+        inside = {id(x) for x in ast.walk(L)}
+        outer_asg = {}
+        for s_ in walk_no_nested(fy.node):
+            if isinstance(s_, (ast.Assign, ast.AnnAssign, ast.AugAssign)) and id(s_) not in inside:
+                for p_ in stored_paths(s_):
+                    if "." not in p_ and "[" not in p_:
+                        outer_asg.setdefault(p_, s_)
+        carried = []
+        for nm_, first in outer_asg.items():
+            stores_in = [s_ for s_ in walk_no_nested(L) if isinstance(s_, (ast.Assign, ast.AnnAssign, ast.AugAssign)) and nm_ in stored_paths(s_)]
+            reads_in = [n_ for n_ in walk_no_nested(L) if isinstance(n_, ast.Name) and n_.id == nm_ and isinstance(n_.ctx, ast.Load)]
+            if not stores_in or not reads_in:
+                continue
+            # harmless only if an unconditional assignment at the top level of the loop body precedes every read
+            top = [i for i, s_ in enumerate(L.body) if any(s_ is t for t in stores_in)]
+            first_read = min((i for i, s_ in enumerate(L.body) if any(x is r for r in reads_in for x in ast.walk(s_))), default=None)
+            own_rhs = any(any(x is r for r in reads_in for x in ast.walk(s_.value)) for s_ in stores_in if getattr(s_, "value", None) is not None and any(s_ is L.body[i] for i in top[:1]))
+            if not top or first_read is None or top[0] > first_read or (top[0] == first_read and own_rhs):
+                carried.append((nm_, stores_in[0]))
+        chk.decide(not carried, "C08.R3", f"{fy.key}:no-state-carried-between-blocks", fy.where(carried[0][1] if carried else L),
+                   "no local survives from one block to the next",
+                   (f"`{carried[0][0]}` is set before the block loop, updated inside it (`{short(carried[0][1], 50)}`) and read in later iterations: a frame can be built from values of "
+                    "an earlier frame (same atom count, different elements)") if carried else "")
     lx = prog.method(ens, "load_xyz")
     chk.analysed(lx)
     asg = assignments(lx.node)
